@@ -115,6 +115,24 @@ def programs(rng, quick):
         gu("mean_grp", f"n={n},long", stats.mean_grp, (yl2, gl, 1, ND), [((n,), "float32")], f32=True)
         gu("rolling_sum", f"n={n},long", stats.rolling_sum, (yl2, 1000, ND), [((n,), "float32")], f32=True)
         nj("autocorr_1d_int", f"n={n},long", ac.autocorr_1d_int, yl2, ND)
+    # a few counts of spread on a large offset: the variance and covariance terms subtract huge, nearly equal numbers, so any
+    # re-association or fused multiply-add in compiled code is amplified by mean^2 / variance
+    offs = [("10000+1spike,n=360", np.array([10000] * 200 + [10001] + [10000] * 159, dtype="int16")),
+            ("30000pm1,n=36", np.array([30000 + (1 if (i * 7) % 5 < 2 else -1 if (i * 7) % 5 == 3 else 0) for i in range(36)], dtype="int16")),
+            ("10000pm3,gaps,n=90", np.array([ND if i % 11 == 4 else 10000 + ((i * i) % 7) - 3 for i in range(90)], dtype="int16")),
+            ("1e6pm3,int32,n=120", np.array([1000000 + ((i * 13) % 7) - 3 for i in range(120)], dtype="int32"))]
+    for lab, yo in offs:
+        n = len(yo)
+        yf = yo.astype("float64")
+        yf[yo == ND] = np.nan
+        nj("autocorr_1d_int", lab, ac.autocorr_1d_int, yo, ND)
+        nj("autocorr_1d_float", lab, ac.autocorr_1d_float, yf)
+        nj("autocorr_1d", lab, ac.autocorr_1d, yo, ND)
+        if yo.dtype == np.int16:
+            lz("autocorr", lab, ops.autocorr, yo.reshape(1, 1, n), ND, f32=True)
+            lz("autocorr_tyx", lab, ops.autocorr_tyx, yo.reshape(n, 1, 1), ND, f32=True)
+            gu("mean_grp", lab, stats.mean_grp, (yo, np.array([i % 3 for i in range(n)], dtype="int16"), 3, ND), [((n,), "float32")], f32=True)
+            gu("_mann_kendall_trend_gu_nd", lab, stats._mann_kendall_trend_gu_nd, (yo, ND), [((), "float32"), ((), "float32"), ((), "float32"), ((), "int8")], f32=True)
     reps = 2 if quick else 12
     for _ in range(reps):
         for n in ([4, 5, 9, 24] if quick else [4, 5, 9, 24, 60]):
